@@ -12,6 +12,7 @@ import (
 	"time"
 
 	"github.com/specterops/dawgs/cardinality"
+	"github.com/specterops/dawgs/graph"
 )
 
 // C13: ID-set providers (cardinality/roaring32.go, roaring64.go, lock.go) against the Lean model Dawgs.C13.
@@ -447,6 +448,144 @@ func c13Step[T number](r *c13Runner, m map[string]*c13Prov[T], bits int, t []str
 		np := &c13Prov[T]{d: c, wrapped: src.wrapped}
 		m[t[1]] = np
 		return "ok " + c13Obs(np), true
+	case len(t) == 5 && t[0] == "eachcall":
+		// eachcall <x> <k> remove|cadd|add|contains <y>: x.Each(func(v){ y.M(v); return visited < k })  (k = 0: all); y is
+		// ANOTHER provider: a clone of x, an operand, an unrelated wrapper — the delegate runs while x's lock is held
+		x, y := get(t[1]), get(t[4])
+		if x == nil {
+			return "", false
+		}
+		k, err := strconv.Atoi(t[2])
+		if y == nil || x == y || err != nil || k < 0 {
+			return "bad-op", true
+		}
+		if x.dead || y.dead {
+			return "deadlock", true
+		}
+		var call func(v T)
+		switch t[3] {
+		case "remove":
+			call = func(v T) { y.d.Remove(v) }
+		case "cadd":
+			call = func(v T) { y.d.CheckedAdd(v) }
+		case "add":
+			call = func(v T) { y.d.Add(v) }
+		case "contains":
+			call = func(v T) { y.d.Contains(v) }
+		default:
+			return "bad-op", true
+		}
+		r.stats.Inc("op.eachcall." + c13KindName(x) + "/" + c13KindName(y))
+		if !c13Call(func() {
+			seen := 0
+			x.d.Each(func(v T) bool {
+				call(v)
+				seen++
+				return k == 0 || seen < k
+			})
+		}) {
+			if x.wrapped {
+				x.dead = true
+			}
+			r.stats.Inc("deadlock.eachcall")
+			return "deadlock", true
+		}
+		return "ok " + c13Obs(x) + " | " + c13Obs(y), true
+	case len(t) == 2 && t[0] == "toids":
+		// graph.DuplexToGraphIDs on a quiescent provider
+		x := get(t[1])
+		if x == nil {
+			return "", false
+		}
+		if x.dead {
+			return "deadlock", true
+		}
+		var ids []graph.ID
+		if !c13Call(func() { ids = graph.DuplexToGraphIDs(x.d) }) {
+			return "deadlock", true
+		}
+		vals := make([]uint64, len(ids))
+		for i, id := range ids {
+			vals[i] = id.Uint64()
+		}
+		if !sort.SliceIsSorted(vals, func(i, j int) bool { return vals[i] < vals[j] }) {
+			return fmt.Sprintf("unsorted-ids %v", vals), true
+		}
+		r.stats.Inc("op.toids")
+		return fmt.Sprintf("%d %s", len(vals), c13Rle(vals)), true
+	case len(t) == 4 && t[0] == "toidsrace":
+		x := get(t[1])
+		if x == nil {
+			return "", false
+		}
+		lo, e1 := strconv.ParseUint(t[2], 10, 64)
+		n, e2 := strconv.ParseUint(t[3], 10, 32)
+		if e1 != nil || e2 != nil || x.dead || !x.wrapped || lo == 0 || (bits == 32 && lo+n >= 1<<32) {
+			return "bad-op", true
+		}
+		return c13ToIDsRace(r, x, lo, n), true
+	case len(t) == 5 && t[0] == "caddrace":
+		x := get(t[1])
+		if x == nil {
+			return "", false
+		}
+		lo, e1 := strconv.ParseUint(t[2], 10, 64)
+		n, e2 := strconv.ParseUint(t[3], 10, 32)
+		g, e3 := strconv.Atoi(t[4])
+		if e1 != nil || e2 != nil || e3 != nil || g < 1 || g > 64 || x.dead || !x.wrapped || (bits == 32 && lo+n >= 1<<32) {
+			return "bad-op", true
+		}
+		// g goroutines walk the same value sequence: every value is probed by all of them at about the same time
+		var total atomic.Int64
+		var wg sync.WaitGroup
+		start := make(chan struct{})
+		for i := 0; i < g; i++ {
+			wg.Add(1)
+			go func() {
+				defer wg.Done()
+				<-start
+				c := 0
+				for k := uint64(0); k < n; k++ {
+					if x.d.CheckedAdd(T(lo + k)) {
+						c++
+					}
+				}
+				total.Add(int64(c))
+			}()
+		}
+		close(start)
+		wg.Wait()
+		r.stats.Inc("caddrace.runs")
+		return fmt.Sprintf("ok trues=%d %s", total.Load(), c13Obs(x)), true
+	case len(t) == 3 && t[0] == "kindor":
+		// graph.KindBitmaps.AddDuplexToKind / graph.ThreadSafeKindBitmap.Or with caller-provided providers (64 bit only)
+		x, y := get(t[1]), get(t[2])
+		if x == nil {
+			return "", false
+		}
+		if y == nil || bits != 64 || x.dead || y.dead {
+			return "bad-op", true
+		}
+		dx, dy := any(x.d).(cardinality.Duplex[uint64]), any(y.d).(cardinality.Duplex[uint64])
+		var a, b []uint64
+		if !c13Call(func() {
+			kind := graph.StringKind("K")
+			kb := graph.KindBitmaps{}
+			kb.AddDuplexToKind(dx, kind)
+			kb.AddDuplexToKind(dy, kind)
+			a = kb.Get(kind).Slice()
+			tsk := graph.NewThreadSafeKindBitmap()
+			tsk.Or(kind, dx)
+			tsk.Or(kind, dy)
+			b = tsk.Get(kind).Slice()
+		}) {
+			return "deadlock", true
+		}
+		if c13Rle(a) != c13Rle(b) {
+			return fmt.Sprintf("kindbitmaps-disagree %s %s", c13Rle(a), c13Rle(b)), true
+		}
+		r.stats.Inc("op.kindor")
+		return fmt.Sprintf("%d %s | %s | %s", len(a), c13Rle(a), c13Obs(x), c13Obs(y)), true
 	case len(t) >= 3 && t[0] == "comm":
 		// comm <v> or:a,b and:c …  (commutative.go)
 		first := strings.SplitN(t[2], ":", 2)
@@ -595,6 +734,70 @@ func c13Step[T number](r *c13Runner, m map[string]*c13Prov[T], bits int, t []str
 		return c13Conc(r, m, p, bits, t[2:]), true
 	}
 	return "", false
+}
+
+// toidsrace <x> <lo> <n>: a writer slides a window over wrapper x (Add(lo+k); Remove(lo+k-8)) while a reader keeps
+// converting x with graph.DuplexToGraphIDs. Oracle for every conversion: no panic, strictly ascending (so no
+// duplicates), every ID was a member at some point of the run (initial content or one of the window values; 0 never is).
+func c13ToIDsRace[T number](r *c13Runner, x *c13Prov[T], lo, n uint64) string {
+	initial := map[uint64]struct{}{}
+	for _, v := range x.d.Slice() {
+		initial[uint64(v)] = struct{}{}
+	}
+	var done atomic.Bool
+	var wg sync.WaitGroup
+	bad, conversions := 0, 0
+	detail := ""
+	var pan any
+	wg.Add(2)
+	go func() {
+		defer wg.Done()
+		defer done.Store(true)
+		for k := uint64(0); k < n; k++ {
+			x.d.Add(T(lo + k))
+			if k >= 8 {
+				x.d.Remove(T(lo + k - 8))
+			}
+		}
+	}()
+	go func() {
+		defer wg.Done()
+		defer func() {
+			if p := recover(); p != nil {
+				pan = p
+			}
+		}()
+		check := func() {
+			ids := graph.DuplexToGraphIDs(x.d)
+			conversions++
+			prev := uint64(0)
+			for i, id := range ids {
+				u := id.Uint64()
+				_, wasInitial := initial[u]
+				if (i > 0 && u <= prev) || !(wasInitial || (u >= lo && u < lo+n)) {
+					if bad == 0 {
+						detail = fmt.Sprintf("ids[%d]=%d", i, u)
+					}
+					bad++
+					return
+				}
+				prev = u
+			}
+		}
+		for !done.Load() {
+			check()
+		}
+		check()
+	}()
+	wg.Wait()
+	if pan != nil {
+		panic(pan)
+	}
+	r.stats.Inc("toidsrace.runs")
+	if bad > 0 {
+		return fmt.Sprintf("ok bad=%d %s first=%s", bad, c13Obs(x), detail)
+	}
+	return fmt.Sprintf("ok bad=0 %s", c13Obs(x))
 }
 
 // pairs <x> <o> <lo> <n>: a writer inserts the pairs (lo+2k, lo+2k+1) into wrapper o, each pair by ONE o.Add call (so
@@ -949,6 +1152,17 @@ func (g *c13Gen) randomCase(bits int, rk, ok string, big bool) {
 			roles = append(roles, cn)
 			name[cn] = cn
 			kind[cn] = kind[x]
+		case c < 19 && r.Chance(1, 2):
+			// delegate of Each calling another provider; consumers of a provider in graph/types.go
+			y := Pick(r, roles)
+			switch {
+			case y != x && r.Chance(2, 3):
+				g.line("eachcall %s %d %s %s", name[x], r.Intn(4), Pick(r, []string{"remove", "cadd", "add", "contains"}), name[y])
+			case bits == 64 && r.Bool():
+				g.line("kindor %s %s", name[x], name[y])
+			default:
+				g.line("toids %s", name[x])
+			}
 		case c < 19:
 			if r.Bool() {
 				// commutative.go: membership over or/and groups of the case's providers
@@ -1153,6 +1367,27 @@ func (c13Suite) genMain(g *c13Gen, tier string) {
 		g.line("slice y")
 		g.line("or z x")
 		g.line("card z")
+		// delegates of Each that call OTHER providers (clone of the receiver, an unrelated wrapper, an operand): the
+		// receiver's lock is held, the other provider has its own — every call returns
+		g.begin(fmt.Sprintf("nested-each ts%d", bits))
+		g.line("new x ts%d", bits)
+		g.line("add x 1 2 3 65536 65537")
+		g.line("clone s x")
+		g.line("eachcall s 0 remove x")
+		g.line("add x 1 2 70000")
+		g.line("eachcall x 0 cadd s")
+		g.line("eachcall x 2 contains s")
+		g.line("new u ts%d", bits)
+		g.line("eachcall x 0 add u")
+		g.line("eachcall u 1 remove x")
+		g.line("new o b%d", bits)
+		g.line("add o 2 70000 9")
+		g.line("eachcall o 0 remove x")
+		g.line("eachcall x 0 cadd o")
+		g.line("clone s2 s")
+		g.line("eachcall s2 0 add s")
+		g.line("toids x")
+		g.line("toids o")
 		g.begin(fmt.Sprintf("abba ts%d", bits))
 		g.line("new a ts%d", bits)
 		g.line("new b ts%d", bits)
@@ -1362,6 +1597,33 @@ func (c13Suite) genConc(g *c13Gen, tier string) {
 	np := 6
 	if tier == "thorough" {
 		np = 40
+	}
+	// consumers and contention: conversions under a concurrent writer; the same values probed by several goroutines
+	nr := 4
+	if tier == "thorough" {
+		nr = 40
+	}
+	for i := 0; i < nr; i++ {
+		bits := 32
+		if r.Bool() {
+			bits = 64
+		}
+		base := uint64(1+r.Intn(3)) << 16
+		if bits == 64 && r.Bool() {
+			base += uint64(1+r.Intn(3)) << 32
+		}
+		g.begin(fmt.Sprintf("toidsrace ts%d", bits))
+		g.line("new x ts%d", bits)
+		g.line("add x %d %d %d", base+uint64(40000+r.Intn(100)), base+uint64(50000+r.Intn(100)), base+uint64(60000))
+		g.line("toids x")
+		g.line("toidsrace x %d %d", base+uint64(1+r.Intn(50)), 15000+r.Intn(15000))
+		g.line("toids x")
+		g.stats.Inc("toidsrace_cases")
+		g.begin(fmt.Sprintf("caddrace ts%d", bits))
+		g.line("new x ts%d", bits)
+		g.line("addrange x %d %d 3", base+uint64(r.Intn(10)), 200+r.Intn(200))
+		g.line("caddrace x %d %d %d", base, 8000+r.Intn(8000), 2+r.Intn(7))
+		g.stats.Inc("caddrace_cases")
 	}
 	for i := 0; i < np; i++ {
 		bits := 32
